@@ -221,25 +221,36 @@ class SimClient:
     def __init__(self, interp, ctx, on_step=None):
         self.interp = interp
         self.ctx = ctx  # seams.SimContext (clock)
-        self.now = 0.0
+        self.now_us = 0  # integer microseconds: shifting all deadlines never reorders them
         self.q = []
         self.seq = 0
         self.on_step = on_step
         self.delivered = 0
         self.action_starts = {}
-        ctx.set_clock(lambda: self.now)
+        ctx.set_clock(lambda: self.now_us / 1e6)
+
+    @property
+    def now(self):
+        return self.now_us / 1e6
 
     def schedule(self, delay, event, tag=None):
         self.seq += 1
-        heapq.heappush(self.q, (self.now + delay, self.seq, event, tag))
+        heapq.heappush(self.q, (self.now_us + int(round(delay * 1e6)), self.seq, event, tag))
+
+    def idle(self, delta):
+        """clock_jump fault: nothing happens for `delta` seconds; everything scheduled shifts with it."""
+        d = int(round(delta * 1e6))
+        self.now_us += d
+        self.q = [(t + d, s, e, tag) for (t, s, e, tag) in self.q]
+        heapq.heapify(self.q)
 
     def step(self):
         """Deliver the next event; returns (event, outgoing, tag) or None."""
         if not self.q:
             return None
         t, _s, event, tag = heapq.heappop(self.q)
-        if t > self.now:
-            self.now = t
+        if t > self.now_us:
+            self.now_us = t
         out = self.interp.deliver(event) if event != "START" else self.interp.start()
         self.delivered += 1
         if self.on_step:
